@@ -172,6 +172,9 @@ def check_supp_case(c):
 
 
 def run(chk, replay=None):
+    if replay is not None and replay.get("override"):
+        override_relation(chk)
+        return
     if replay is not None:
         res = check_supp_case(replay) if "pairs" in replay else check_conv_case(replay)
         chk.case({k: replay[k] for k in replay if k not in ("cols", "pairs")})
@@ -236,3 +239,46 @@ def run(chk, replay=None):
         chk.case({"grid": c["grid"], "r2": c["r2"], "size": c["size"]})
         if res:
             chk.violation("C09/cone/" + res[0], res[1], c)
+    override_relation(chk)
+
+
+def override_relation(chk):
+    """[R+] value overrides (FilterConv.override_values): with constant-valued boundaries on every side the padding does not depend
+    on the field, so overriding the entries `index` by c must give exactly the plain filter (bound to Filt.tla above) applied to the
+    field with those entries replaced. Integer fields and kernels, kernels with different half-widths per axis."""
+    import pymoto as pym
+    rng = np.random.default_rng(909)
+    grids = [(4, 5, 0), (5, 3, 0), (3, 4, 2)]
+    kernels2 = [(3, 5, 1), (5, 3, 1), (1, 3, 1), (3, 1, 1), (3, 3, 1)]
+    kernels3 = [(3, 1, 3), (1, 3, 3), (3, 3, 1)]
+    for g in grids:
+        dom = pym.DomainDefinition(*g)
+        shape = (g[0], g[1], max(g[2], 1))
+        bcs = dict(xmin_bc=2.0, xmax_bc=1.0, ymin_bc=0.0, ymax_bc=3.0)
+        if g[2] > 0:
+            bcs.update(zmin_bc=1.0, zmax_bc=-1.0)
+        for ks in (kernels3 if g[2] > 0 else kernels2):
+            w = rng.integers(0, 4, ks).astype(float)
+            w[tuple(k // 2 for k in ks)] += 1.0
+            for index in ((slice(0, 2), slice(1, 3), slice(None)), (np.array([0, shape[0] - 1]), np.array([shape[1] - 1, 0]), np.array([0, shape[2] - 1])),
+                          (slice(None), slice(shape[1] - 1, shape[1]), slice(None))):
+                x = rng.integers(-3, 4, dom.nel).astype(float)
+                val = 5.0
+                s1 = pym.Signal("x", x.copy())
+                m1 = pym.FilterConv(s1, domain=dom, weights=w.copy(), **bcs)
+                m1.override_values(index, val)
+                x3 = x.reshape(shape, order="F").copy()     # element number = i + nx * j + nx * ny * k
+                x3[index] = val
+                s2 = pym.Signal("x", x3.reshape(-1, order="F"))
+                m2 = pym.FilterConv(s2, domain=dom, weights=w.copy(), **bcs)
+                case = {"override": True, "grid": list(g), "kernel": list(ks), "index": str(index)}
+                chk.case(case)
+                try:
+                    y1 = m1.response().sig_out[0].state
+                    y2 = m2.response().sig_out[0].state
+                except Exception as e:
+                    chk.violation("C09/override/raise", "grid %s kernel %s index %s raised %s: %s" % (g, ks, index, type(e).__name__, str(e)[:120]), case)
+                    continue
+                if not np.array_equal(y1, y2):
+                    chk.violation("C09/override/values", "grid %s kernel %s: overriding %s by %s differs from filtering the field with those entries replaced (max diff %s)"
+                                  % (g, ks, index, val, float(np.abs(y1 - y2).max())), case)
